@@ -1,6 +1,6 @@
 _FORMS = ["full", "lower", "upper", "sparse", "euclid"]
 _ROUTES = ["auto", "direct", "enc_bf64", "enc_bf128", "enc_cns128"]
-_SRC = ["c11_main.cpp", "c11_pipeline.cpp"] + ["c11_%s_%s.cpp" % (f, v) for f in _FORMS for v in ("f", "d")]
+_SRC = ["c11_main.cpp", "c11_pipeline.cpp"] + ["c11_%s_%s.cpp" % (f, v) for f in _FORMS + ["user"] for v in ("f", "d")]
 _CONFIGS = {}
 for _f in _FORMS:
     for _v in ("f", "d"):
@@ -8,6 +8,16 @@ for _f in _FORMS:
         _CONFIGS["%s_%s_big" % (_f, _v)] = {"quick": 300, "thorough": 30000}
 for _v in ("f", "d"):
     _CONFIGS["sparse_%s_huge" % _v] = {"quick": 250, "thorough": 12500}
+    # a user-defined Tag_dense matrix handed to the engine directly (own translation units: the engine is instantiated on it)
+    _CONFIGS["user_%s" % _v] = {"quick": 600, "thorough": 60000}
+    _CONFIGS["user_%s_big" % _v] = {"quick": 150, "thorough": 15000}
+# unit "wide" (small shards: single cases take up to ~3 s)
+_WIDE_SRC = ["c11_main.cpp", "c11_pipeline.cpp"] + ["c11_wide_%s_%s.cpp" % (f, v) for f in ("sparse", "lower") for v in ("f", "d")]
+_WIDE = {}
+for _f in ("sparse", "lower"):
+    for _v in ("f", "d"):
+        _WIDE["%s_%s_dimwide" % (_f, _v)] = {"quick": 120, "thorough": 12000}
+        _WIDE["%s_%s_topclique" % (_f, _v)] = {"quick": 8, "thorough": 800}
 
 # floors: roughly half of what a normal quick run (13 000 inputs, seed 1) measures; thorough = 50 x quick floors (half of the 100 x larger run)
 _QF = {"_distinct_nontrivial": 2000, "cases.completed": 6000, "cmp.intervals": 35000, "pipeline.compared": 5000,
@@ -18,7 +28,7 @@ _QF = {"_distinct_nontrivial": 2000, "cases.completed": 6000, "cmp.intervals": 3
        #  property - a benign change that stops emitting them made such a floor fail, see DESIGN section 12)
        "thr.none_inf": 400, "thr.none_max": 400, "thr.below_min": 400, "thr.equal": 1000, "thr.between": 400,
        "thr.at_max": 400, "thr.above_max": 400, "thr.finite_small": 1400,
-       "p.2": 1500, "p.3": 900, "p.5": 900, "p.7": 400, "p.11": 400, "p.13": 400, "p.32749": 400, "p.65521": 400,
+       "p.2": 1400, "p.3": 900, "p.5": 900, "p.7": 400, "p.11": 400, "p.13": 400, "p.32749": 400, "p.65521": 400,
        "ctor.sparse.from_matrix_and_threshold": 150, "ctor.lower.from_upper": 300, "ctor.lower.from_matrix": 300,
        "ctor.euclid.points": 1300}
 for _f in _FORMS:
@@ -29,14 +39,34 @@ _QF.update({"huge.entry_over64": 150, "huge.entry_over64.odd_p": 140, "huge.entr
             "huge.entry_over64.odd_p.top_dim_finite_bar": 30, "huge.entry_le64_control.odd_p.top_dim_bar": 40,
             "huge.placement.high": 150, "huge.placement.low": 40, "huge.placement.scattered": 35,
             "gen.huge_sphere": 120, "gen.huge_fewvalued": 80, "huge.dim_max.1": 75, "huge.dim_max.2": 150})
+# the gaps closed after the audit: moduli outside the eight listed ones, non-integer point clouds, 11-13 points (mostly without
+# threshold), dim_max above n-2 through the public entry points, a user-defined dense matrix handed over directly, copy / move /
+# self assignment of the compressed layouts
+_QF.update({"p.other_lt256": 800, "p.other_lt32768": 650, "p.other_ge32768": 500, "cloud.noninteger_coordinates": 1200,
+            "small.n11_13": 550, "small.n11_13.no_threshold": 330, "small.n11_13.no_threshold.dense_form": 280,
+            "dimarg.int_max": 200, "dimarg.above_n_minus_2": 200, "ctor.user.user_matrix_direct": 3700,
+            "ctor.lower.copy_assigned_outlives_original": 35, "ctor.lower.move_assigned": 40, "ctor.lower.copy_then_self_assigned": 20,
+            "ctor.upper.copy_assigned_outlives_original": 35, "ctor.upper.move_assigned": 35, "ctor.upper.copy_then_self_assigned": 18})
+for _r in _ROUTES:
+    _QF["nt.user.%s" % _r] = 190
+# wide inputs: dim_max on both sides of what the 8-bit dimension type can hold (below: answered correctly; above: answered or
+# refused with std::overflow_error), and the 14-16-cliques on the highest labels
+_QF.update({"wide.dm_61_124": 80, "wide.dm_125_n-2": 65, "wide.dm_above_n-2": 50, "wide.dm_61_124.answered.auto": 80,
+            "wide.dm_61_124.answered.direct": 80, "wide.dm_61_124.answered.enc_cns128": 80,
+            "wide.n257plus": 35, "wide.topclique": 16, "wide.top_clique.16": 8, "wide.cns_index_over64": 4, "wide.bitfield_index_over100bits": 12})
 _TF = {k: (25 if k.startswith(("huge.", "gen.huge")) else 50) * v for k, v in _QF.items()}
+_TF["fullbig.completed"] = 1      # thorough only: Full_distance_matrix with more than INT_MAX cells
+_TF["oracle.fast_path_cross_checked"] = 50
 
 SPEC = {
     "property": "C11",
-    "rule": "Each case draws one dissimilarity: (small configs) 2-10 points from integer-coordinate point clouds (incl. duplicate points and "
-            "cross-polytope vertices), random symmetric matrices on a 6-value grid (ties, non-metric, sometimes zero entries), hop metrics of "
-            "cycle+chord graphs, cross-polytope two-level matrices; a threshold class from {none as +inf, none as max(), below the minimum, equal "
-            "to a distance, between two distances, at the maximum, above it}; dim_max in 0..n-2; a modulus from {2,3,5,7,11,13,32749,65521}; "
+    "rule": "Each case draws one dissimilarity: (small configs) 2-10 points (one case in ten: 11-13 points with dim_max <= 2, half of those "
+            "without threshold) from point clouds with integer or, for half of them, non-integer dyadic coordinates (multiples of 1/2, 1/8, "
+            "1/16; incl. duplicate points and cross-polytope vertices), random symmetric matrices on a 6-value grid (ties, non-metric, sometimes "
+            "zero entries), hop metrics of cycle+chord graphs, cross-polytope two-level matrices; a threshold class from {none as +inf, none as "
+            "max(), below the minimum, equal to a distance, between two distances, at the maximum, above it}; dim_max in 0..n-2, and one case "
+            "in twelve hands a dim_max ABOVE n-2 (n-1..n+2 or INT_MAX, what the Python binding passes) to ripser_auto / ripser, which clamp "
+            "it (expected: the barcode for n-2); a modulus from {2,3,5,7,11,13,32749,65521} or, for 30 % of the cases, any prime below 65536; "
             "(big configs) 12-40 points with a sparse threshold graph (grid clouds, sparse random graphs, clusters incl. one 10-12-clique on "
             "the highest labels, a 12-vertex flag projective plane with decorations, and 129-348 points with an 8-10-clique on the highest labels so "
             "that simplex indices of the bit-field encodings exceed 2^64) and (n, dim_max, modulus) steered to both sides of the "
@@ -45,33 +75,58 @@ SPEC = {
             "with distances rounded up to multiples of 1/8 or a random 5-valued matrix (many ties, so the Z_p reduction in dimension dim_max "
             "really adds columns), dim_max 1-2, moduli {3,5,7,13,32749,65521} and 2 as control: encoded entries (index << coefficient bits) "
             "exceed 2^64 while coefficients of summed pivots are rewritten; there the oracle runs on the active vertices only and the "
-            "n-m essential H_0 bars of the isolated vertices are counted on both sides instead of stored. The input is handed to the engine in one of the five forms "
-            "(Full_distance_matrix, Compressed lower, Compressed upper, Sparse edge list, Euclidean point cloud; float and double; several "
-            "constructors per form) and run through ripser_auto, ripser, and help2 with each of Bitfield-64 / Bitfield-128 / CNS-128. The "
+            "n-m essential H_0 bars of the isolated vertices are counted on both sides instead of stored; (wide configs, sparse and compressed-lower "
+            "form, every route in a forked child) 126-131 (one in six: 257-400) very sparse vertices with dim_max in {61..124, 125, 126, "
+            "253..260, n-2, n-1.., INT_MAX} and p in {2,3,5}, i.e. on both sides of what the engine's 8-bit dimension type holds: accepted outcomes are the correct barcode or "
+            "the documented std::overflow_error refusal, never a wrong barcode, a memory error or another exception; and 100-128 vertices "
+            "with a 14-16-clique on the highest labels, dim_max = clique size - 2 or - 1 (simplices of 16 vertices, CNS indices beyond 2^64, "
+            "bit-field indices up to 2^112; 3 of the 5 routes, third opinion only up to 40 000 simplices); (thorough tier only, plain build) one "
+            "Full_distance_matrix with 46 341+ points, i.e. more than INT_MAX cells. The input is handed to the engine in one of six forms "
+            "(Full_distance_matrix, Compressed lower, Compressed upper, Sparse edge list, Euclidean point cloud, a user-defined Tag_dense "
+            "matrix type passed as it is; float and double; several constructors per form, incl. copies and copy / move / self ASSIGNMENT "
+            "of the compressed layouts whose source is destroyed before use) and run through ripser_auto, ripser, and help2 with each of "
+            "Bitfield-64 / Bitfield-128 / CNS-128. The "
             "intervals streamed through output_dim/output_pair (zero-length dropped) are compared as a multiset per dimension with the "
             "barcode of the brute-force clique complex of the threshold graph (oracle/flag.h for n<=10, a naive recursive clique "
             "enumeration above) reduced by oracle/zp_reduce.h; without threshold the oracle uses the FULL filtration (so the enclosing-radius "
-            "shortcut is checked, not assumed); for moduli <= 13 GUDHI's Rips_complex->Simplex_tree::expansion->Persistent_cohomology pipeline "
+            "shortcut is checked, not assumed); for moduli < 256 GUDHI's Rips_complex->Simplex_tree::expansion->Persistent_cohomology pipeline "
             "is run on the same graph as third opinion and a mismatch is attributed two-against-one. Two constructions whose question is memory "
             "safety (a copy of a matrix used after its original was destroyed; the converting constructor of the upper layout) run in a forked "
             "child so that a sanitizer report becomes an ordinary violation record. Every case has a 10 s CPU budget and the process a 4 GB "
             "RSS cap (a wrong reduction can loop forever). non-trivial = input (distinct by hash of "
             "its full description) whose expected barcode has a finite positive-length interval in dimension >= 1.",
     "assumptions": [
-        "dissimilarities are finite, non-negative, symmetric with zero diagonal and exactly representable in the value type (integer point "
-        "clouds: the squared distance is exact and IEEE sqrt is correctly rounded, so float and double runs each have their own exact oracle input)",
-        "n >= 2 and 0 <= dim_max <= n-2 (the quantifier of the property); moduli are primes < 65536",
+        "dissimilarities are finite, non-negative, symmetric with zero diagonal and exactly representable in the value type (point clouds "
+        "have integer or dyadic coordinates k/2, k/8, k/16 with small k: every difference, square and partial sum of the squared distance is "
+        "exact in float whatever the order of accumulation and IEEE sqrt is correctly rounded, so float and double runs each have their own "
+        "exact oracle input; coordinates whose squared distance has to be rounded are NOT exercised - the result would depend on the "
+        "order of summation, which the property leaves open)",
+        "n >= 2 (n <= 1 is excluded: 'dim_max up to n-2' is empty there, and the compressed layouts compute n*(n-1)/2 and n-2 on it); "
+        "0 <= dim_max <= n-2 is the quantifier of the property; larger values are only handed to ripser_auto / ripser, whose code clamps them "
+        "to n-2, never to help2 directly; moduli are primes < 65536 (all of them are drawn)",
+        "dim_max >= 125 (possible from 127 points on) does not fit the engine's 8-bit dimension type: there the correct barcode and a "
+        "std::overflow_error refusal are both accepted, from every route; the coverage floors wide.dm_61_124.answered.* make sure that "
+        "dim_max <= 124 is really answered",
         "sparse form: the edge list is the graph (no duplicate edges / self loops, neighbour lists sorted as the bindings do); the threshold "
         "argument is documented as ignored there and is passed as +inf, max() or the largest edge",
-        "big configs stay inside the domain the engine accepts: C(n, min(n/2, dim_max+2)) * 2^coeffbits < 2^116 and dim_max <= 60 (beyond, "
-        "the engine documents a std::overflow_error refusal; its dimension type is 8 bits wide)",
+        "big configs stay inside the domain the engine accepts: C(n, min(n/2, dim_max+2)) * 2^coeffbits < 2^116 and dim_max <= 60; the wide "
+        "configs go beyond (dim_max 61..INT_MAX with 126-131 points, where C(n, n/2) is within a factor 4 of 2^128) and accept the "
+        "documented std::overflow_error refusal from every route",
         "explicit help2 calls may refuse an encoding that does not fit with std::overflow_error (documented); the dispatcher may not",
-        "the third opinion is skipped for moduli > 13 (Field_Zp builds its inverse table in O(p^2))",
+        "the third opinion is skipped for moduli >= 256 (Field_Zp builds its inverse table in O(p^2)) and for complexes above 40 000 simplices",
+        "Full_distance_matrix with more than INT_MAX cells (n > 46 340, 8.6 GB) is exercised by one case of the thorough tier only, in a "
+        "sanitizer-free build; the other containers are never that large",
         "which encoding the dispatcher picked is not observable; the dispatch.* counters are computed from the documented rule",
-        "trusted: oracle/flag.h, oracle/zp_reduce.h, the recursive clique enumerator in c11_model.h (used above 10 points)",
+        "trusted: oracle/flag.h, oracle/zp_reduce.h, the recursive clique enumerator in c11_model.h (used above 10 points) and, for "
+        "complexes above 9 000 simplices (the 14-16-cliques), c11::simplicial_diagram_fast, which restates oracle::simplicial_diagram on "
+        "sorted vectors and is cross-checked against it on every such complex below 20 000 simplices",
     ],
     "units": [
         {"name": "ripser", "src": _SRC, "variant": "asan", "configs": _CONFIGS, "chunk": 25},
+        {"name": "wide", "src": _WIDE_SRC, "variant": "asan", "configs": _WIDE, "chunk": 2},
+        # one case, 8.6 GB, about 1 minute: Full_distance_matrix with more than INT_MAX cells (plain build, no sanitizer)
+        {"name": "fullbig", "src": ["c11_fullbig.cpp"], "variant": "gnative", "configs": {"full_f_n46341": {"quick": 0, "thorough": 1}},
+         "chunk": 1, "tiers": ["thorough"]},
     ],
     "floors": {"quick": _QF, "thorough": _TF},
     "timeout": {"quick": 900, "thorough": 7200},
@@ -81,12 +136,16 @@ SPEC = {
                 "where Z_2 and odd primes disagree) are given to the Ripser engine in all five input forms, float and double, through "
                 "ripser_auto, ripser and each of the three simplex encodings, under ASan+UBSan; the intervals streamed by the callbacks are "
                 "compared exactly (multiset per dimension, zero-length dropped) with a brute-force clique complex + textbook Z_p column "
-                "reduction, and with GUDHI's own simplex-tree / persistent-cohomology pipeline. Held on what was observed, not a proof: "
-                "dense complexes have at most 10 points, sparse ones at most 348 points with cliques of at most 12 vertices, plus sparse "
-                "inputs with up to 231 072 vertices of which 25-40 are not isolated (dim_max <= 2); simplex indices above about 2^100 "
-                "(and CNS indices above 2^64) are never produced.",
+                "reduction, and with GUDHI's own simplex-tree / persistent-cohomology pipeline. Also covered: a user-defined dense matrix type "
+                "passed directly, every prime modulus below 65536, non-integer (dyadic) point clouds, copy / move assignment of the compressed "
+                "layouts, dim_max above n-2 (INT_MAX) through the public entry points, and dim_max 61..n-2 with 126-131 points, where the "
+                "engine must answer correctly or refuse with std::overflow_error. Held on what was observed, not a proof: "
+                "dense complexes have at most 13 points (dim_max <= 2 above 10), sparse ones at most 348 points with cliques of at most 16 "
+                "vertices, plus sparse inputs with up to 231 072 vertices of which 25-40 are not isolated (dim_max <= 2); simplex indices above "
+                "about 2^112 (and CNS indices above 2^67) are never produced.",
         "note": "trusted: oracle/flag.h + oracle/zp_reduce.h + the recursive clique enumerator of the harness; values are exactly "
-                "representable so no tolerance is used; n>=2, dim_max<=n-2, prime modulus<65536; third opinion only for moduli<=13",
+                "representable so no tolerance is used; n>=2, dim_max<=n-2 (larger values only through the clamping entry points), prime "
+                "modulus<65536; dim_max>=125 may be refused; third opinion only for moduli<256",
         "technique": "runtime monitoring: randomized inputs x input forms x routes/encodings, independent reference oracle + N-version "
                      "comparison, under AddressSanitizer/UBSan",
     },
